@@ -92,42 +92,43 @@ Section Spec.
 
   Definition in_dt (dt : dtype) : dtype := match dt with DNone => DString | d => d end.
 
-  (* ---- documented meaning of one condition on the value it reads (None = absent) ---- *)
-  Definition doc_match (c : cond) (ov : option sval) : bool :=
+  (* ---- documented meaning of one condition on the value it reads ---- *)
+  (* = != > >= < <= : coerce both sides to the Datatype; no Datatype: the untyped comparison *)
+  Definition doc_compare (o : op) (dt : dtype) (cv : cval) (v : sval) : bool :=
+    match dt with
+    | DNone => match compare_untyped v cv with
+               | Some r => cmp_holds o r | None => false end
+    | _ => match coerce_s dt v, coerce_cv dt cv with
+           | Some a, Some b => match tv_cmp a b with
+                               | Some r => cmp_holds o r | None => false end
+           | _, _ => false
+           end
+    end.
+  (* in: the value, coerced (default string), equals some coerced list item *)
+  Definition doc_in (dt : dtype) (cv : cval) (v : sval) : bool :=
+    match in_items cv, coerce_s (in_dt dt) v with
+    | Some items, Some a => existsb (tv_eqb a) (filter_some (map (coerce_c (in_dt dt)) items))
+    | _, _ => false
+    end.
+  (* the field is present with value v *)
+  Definition doc_present (c : cond) (v : sval) : bool :=
     match c_op c with
-    | OpExists => present ov
-    | OpNotExists => negb (present ov)
-    | OpHasRoot | OpUnknown => false
-    | o =>
-        match ov with
-        | None => false                       (* absent: only not-exists can match *)
-        | Some v =>
-            match o with
-            | OpStartsWith => String.prefix (cval_str fmtv (c_val c)) (sval_str fmtv v)
-            | OpContains => str_contains (cval_str fmtv (c_val c)) (sval_str fmtv v)
-            | OpNotContains => negb (str_contains (cval_str fmtv (c_val c)) (sval_str fmtv v))
-            | OpMatches => match rx (cval_str fmtv (c_val c)) with
-                           | Some f => f (sval_str fmtv v) | None => false end
-            | OpIn | OpNotIn =>
-                let dt := in_dt (c_dt c) in
-                let isin :=
-                  match in_items (c_val c), coerce_s dt v with
-                  | Some items, Some a => existsb (tv_eqb a) (filter_some (map (coerce_c dt) items))
-                  | _, _ => false
-                  end in
-                match o with OpIn => isin | _ => negb isin end
-            | _ =>                                      (* = != > >= < <= *)
-                match c_dt c with
-                | DNone => match compare_untyped v (c_val c) with
-                           | Some r => cmp_holds o r | None => false end
-                | dt => match coerce_s dt v, coerce_cv dt (c_val c) with
-                        | Some a, Some b => match tv_cmp a b with
-                                            | Some r => cmp_holds o r | None => false end
-                        | _, _ => false
-                        end
-                end
-            end
-        end
+    | OpStartsWith => String.prefix (cval_str fmtv (c_val c)) (sval_str fmtv v)
+    | OpContains => str_contains (cval_str fmtv (c_val c)) (sval_str fmtv v)
+    | OpNotContains => negb (str_contains (cval_str fmtv (c_val c)) (sval_str fmtv v))
+    | OpMatches => match rx (cval_str fmtv (c_val c)) with
+                   | Some f => f (sval_str fmtv v) | None => false end
+    | OpIn => doc_in (c_dt c) (c_val c) v
+    | OpNotIn => negb (doc_in (c_dt c) (c_val c) v)
+    | OpEq | OpNe | OpGt | OpLt | OpGe | OpLe => doc_compare (c_op c) (c_dt c) (c_val c) v
+    | OpExists => true
+    | OpNotExists | OpHasRoot | OpUnknown => false
+    end.
+  (* None = the field is absent: only not-exists can match *)
+  Definition doc_match (c : cond) (ov : option sval) : bool :=
+    match ov with
+    | Some v => doc_present c v
+    | None => match c_op c with OpNotExists => true | _ => false end
     end.
 
   (* ---- configurations the documentation gives a meaning to (config validation) ---- *)
